@@ -53,16 +53,9 @@ def run(ctx):
                   'admission literals of the walk: %s' % [[show(c)[:200] for c in conj] for conj in (d or [])][:3])
         other = [c for c in flat if not want(c) and not P.binop('Le', C, P.const(0))(c) and not P.binop('Lt', P.const(0), C)(c) and not P.binop('Eq', C, P.const(0))(c) and not P.binop('Ne', C, P.const(0))(c)]
         ctx.check(not other, 'R2', 'utxos:no-other-cut', ap, 'no other condition cuts the walk', 'additional admission conditions: %s' % [show(c)[:200] for c in other])
-        # refusal leaves the loop: from the refusing successor there is no path back to the header
-        refusing = []
-        for s in range(len(f.blocks)):
-            t = f.blocks[s]['term']
-            if t['k'] == 'switch' and s in g.loop_blocks(h) and g.dominates(s, ap.bb):
-                for v, b, reaches in g.switch_arms_reaching(s, [ap.bb], avoid=(s,)):
-                    if not reaches:
-                        refusing.append((s, b))
-        # ignore the iterator-exhausted arm of the loop header switch
-        refusing = [(s, b) for s, b in refusing if not any(P.is_(NEXT, 'Some')(c) or True for c in []) ]
+        # refusal leaves the loop: from a refusing arm there is no path back to the loop header
+        refusing = [(s, b) for s, b in g.refusing_targets(h, ap.bb)
+                    if not (cond_exprs(prog, f, b) and cond_exprs(prog, f, b)[-1][0] == 'is' and cond_exprs(prog, f, b)[-1][2] == ('None',) and P.call('*::next')(cond_exprs(prog, f, b)[-1][1]))]
         back = [(s, b) for s, b in refusing if g.reaches(b, h)]
         ctx.check(bool(refusing) and not back, 'R2', 'utxos:refusal-ends-walk', ap, 'once a block is refused the loop is left (no path back to the loop header): no later block is applied',
                   'after a refused block the walk continues with later blocks')
